@@ -21,7 +21,8 @@ def gen_basic(tier, rng, prefix, count, stop=True, cancels=True, starts=False):
     """free mix of submissions, result reads, context cancellations, optional Stop/Start"""
     out = []
     for i in range(count):
-        workers, limit = rng.choice([(1, 0), (1, 0), (2, 0), (1, 1), (2, 1), (1, 2)])
+        # zero / negative options are legal: NumberWorker <= 0 means NumCPU (2 in these runs), ExpandableLimit < 0 means 0
+        workers, limit = rng.choice([(1, 0), (1, 0), (2, 0), (1, 1), (2, 1), (1, 2), (0, 0), (-3, -1), (1, -2), (0, 1)])
         autostart = 0 if starts and rng.random() < 0.5 else 1
         nt = rng.choice([2, 3])
         tid, ths = [0], []
